@@ -122,6 +122,28 @@ def findSmallRoots (ε : K) (form : Vector (Vector K n) n) (fuel outer : Nat) :
 
 end numeric
 
+/-- neighbour ids as a function: `T[p][k]` (what the discrete part takes as `nb`) -/
+def nbOfList (T : List (List (Option Nat))) : Nat → Nat → Option Nat :=
+  fun p k => ((T[p]?).bind fun row => row[k]?).join
+
+/-- `small_roots[p].neighbors[k].id` -/
+def nbTable {K : Type} {n : ℕ} (roots : Array (Root K n)) : Nat → Nat → Option Nat :=
+  nbOfList (roots.toList.map fun r => r.nb.toList)
+
+/-- coordinates and neighbour ids of a small-root computation (`none` on fuel exhaustion) -/
+def summary {K : Type} {n : ℕ} (r : Except String (Array (Root K n))) :
+    Option (List (List K × List (Option Nat))) :=
+  match r with
+  | .ok roots => some (roots.toList.map fun x => (x.v.toList, x.nb.toList))
+  | .error _ => none
+
+/-- the two thresholds the rank-2 theorems are evaluated at: the mathematical `ε = 0` and the code's `10⁻⁶` -/
+def eps0 : ℚ := 0
+def eps6 : ℚ := 1 / 1000000
+
+/-- the rank-2 form `[[1, c], [c, 1]]`, `c = -cos(π/m)` -/
+def form2 {K : Type} [One K] (c : K) : Vector (Vector K 2) 2 := #v[#v[1, c], #v[c, 1]]
+
 /-! ## discrete part: the automaton on sets of small roots
 
 A node is the Python tuple of 0/1 (here `List Bool`); `nb p k` is the id of
@@ -179,6 +201,15 @@ abbrev Table := List (List (Option Nat))
 def generateAutomaton (nb : Nat → Nat → Option Nat) (nroots rank : Nat) (lex : Bool) (fuel : Nat) :
     Option (List (List Bool) × Table) :=
   bfs (succNode nb lex nroots) rank fuel [List.replicate nroots false] []
+
+/-- `generate_automaton_coxeter_matrix` after the form matrix has been computed: small roots, then the
+automaton (fuel exhaustion of either stage is the error `"fuel"`) -/
+def coxeterAutomaton {K : Type} [Field K] [LinearOrder K] {n : ℕ} (ε : K) (form : Vector (Vector K n) n)
+    (fuel outer bfsFuel : Nat) (lex : Bool) : Except String Table := do
+  let roots ← findSmallRoots ε form fuel outer
+  match generateAutomaton (nbTable roots) roots.size n lex bfsFuel with
+  | none => throw "fuel"
+  | some (_, A) => pure A
 
 /-- `graph[s][k]` (a `KeyError` is `none`) -/
 def Table.step (A : Table) (s k : Nat) : Option Nat := (A[s]?).bind fun row => (row[k]?).join
